@@ -25,6 +25,11 @@ const SCOPE_PROGRAMS: &[&str] = &[
     "level := 1\n{\nlevel := level + 1\nprint(level)\n{\nlevel := level * 10\nprint(level)\n}\n}\nprint(level)\nfn f(item) {\n{\nitem := item\nreturn item\n}\n}\nprint(f(7))\n",
     "total := 5\nfn peek() {\nreturn total\n}\n{\nfn peek2() {\nreturn total\n}\ntotal := peek2() + peek() + 1\nprint(total)\nprint(peek2())\n}\nprint(total)\n",
     "greet := \"nobody\"\nfn outer(name) {\n{\npunct := \"!\"\nreturn fn () {\nreturn $\"hello, ${name}${punct}\"\n}\n}\n}\nprint(outer(\"ann\")())\nfn later() {\nf := null\n{\nf = fn () {\nreturn $\"${v}\"\n}\n}\nv := \"late\"\nreturn f()\n}\nprint(later())\n",
+    "x := 1\ny := 2\n{\n[x, y] := [y, x]\nprint([x, y])\n}\nprint([x, y])\nfn f(x, y) {\n{\n[y, x] := [x + 10, y + 10]\nreturn [x, y]\n}\n}\nprint(f(3, 4))\n{\n{q, \"r\": x} := {\"q\": x, \"r\": y}\nprint([q, x])\n}\n",
+    "fn f(print) {\nreturn print * 2\n}\nr := f(4)\nfn g() {\nprint := 5\nreturn print + 1\n}\nr2 := g()\nh := fn (len, type) {\nreturn [len, type]\n}\nr3 := h(1, 2)\nprint([r, r2, r3])\n",
+    "fn wrap() {\nprint := fn (v) {\nreturn v\n}\nreturn print(\"quiet\")\n}\nr := wrap()\nprint(r)\n",
+    "best := null\nother := null\n{\nfn best() {\nreturn \"inner\"\n}\nprint(best())\n}\nprint(best)\nfn run() {\nfn other() {\nreturn 1\n}\nreturn other()\n}\nprint(run())\nprint(other)\nfor e in [1] {\nfn best() {\nreturn \"loop\"\n}\n}\nprint(best)\n",
+    "total := 100\nfn outer() {\ntotal := 0\nfn add(n) {\ntotal += n\nreturn total\n}\nreturn add\n}\na := outer()\nfn caller() {\ntotal := 50\nreturn a(1) + a(2)\n}\nprint(caller())\nprint(total)\nfn plain() {\nreturn total\n}\nfn shadow() {\ntotal := 7\n{\ntotal := 8\nreturn plain()\n}\n}\nprint(shadow())\n",
     "x := 0\nfn f() {\nfor e in [1, 2] {\nx := 10\nif e[1] == 1 {\ncontinue\n}\nbreak\n}\nx = 7\nreturn fn () {\nreturn x\n}\n}\nprint(f()())\nprint(x)\n",
 ];
 
@@ -429,7 +434,8 @@ fn rename_variants(src: &str) -> Vec<(String, String, String)> {
                 _ => {}
             }
         }
-        for new in [format!("_{}", name), format!("{}_r", name), format!("{}Z9", name), "_".repeat(2) + &name] {
+        let spellings = vec![format!("_{}", name), format!("{}_r", name), format!("{}Z9", name), "_".repeat(2) + &name];
+        for new in spellings {
             if toks.iter().any(|t| matches!(&t.tok, Tok::Ident(n) if *n == new)) {
                 continue;
             }
